@@ -35,6 +35,14 @@ def _take_fault(root):
     return fault
 
 
+def _count_lines(path):
+    try:
+        with open(path) as f:
+            return sum(1 for _ in f)
+    except FileNotFoundError:
+        return 0
+
+
 def _count_launch(root):
     p = os.path.join(root, 'log', 'launches')
     try:
@@ -65,7 +73,8 @@ def run_in_child(root, prog, argv, *, tag='driver', fault=None,
                     clock_mode=cfg.get('clock_mode', 'strict'),
                     bufsize=cfg.get('bufsize', 4096),
                     uuid_seed=(cfg.get('seed', 0) * 1000003 +
-                               _w.read_clock(root)),
+                               _count_lines(os.path.join(root, 'log',
+                                                         'invocations'))),
                     tag=tag)
     if backend_launched and nlaunch > limit:
         sys.stderr.write('bfgsim: launch limit exceeded (livelock)\n')
